@@ -163,7 +163,10 @@ func getParentMethodT(
 
 		if parentNode.IsExtend {
 			extendFrame := parentNode.Frame
-			if extendFrame == "" && slices.Contains(BuiltinClasses, parentNode.Class) {
+			// (a module the program itself defines at top level goes before a
+			// configured class of the same short name, whatever its frame)
+			if extendFrame == "" && slices.Contains(BuiltinClasses, parentNode.Class) &&
+				!IsClassDefinedIn("", parentNode.Class) {
 				extendFrame = "Builtin"
 			}
 
@@ -186,7 +189,8 @@ func getParentMethodT(
 
 		if parentNode.IsInclude {
 			includeFrame := parentNode.Frame
-			if includeFrame == "" && slices.Contains(BuiltinClasses, parentNode.Class) {
+			if includeFrame == "" && slices.Contains(BuiltinClasses, parentNode.Class) &&
+				!IsClassDefinedIn("", parentNode.Class) {
 				includeFrame = "Builtin"
 			}
 
